@@ -35,6 +35,12 @@ TRUSTED = [
     "claims no category sizes for relative truncators",
 ]
 ASSUMPTIONS = [
+    "category_name (documented, never read by the current code) is None or a list of str of any length; it is passed "
+    "in about 20 % of the from_ordinal cases; the model ignores it (fo_category_name_ignored) and the names "
+    "themselves are not compared (the property does not name them), only len(categories_name) = num_categories. "
+    "When names are given and the result differs from the model's, it is accepted iff it differs only by a larger "
+    "COMMON padding width (same ballots and multiplicities after stripping trailing empty categories, counters "
+    "consistent); that every ballot has exactly num_categories categories is checked directly on every result",
     "source instances are non-empty, orders are non-empty tuples of non-empty classes of non-negative integer ids, "
     "no alternative twice in an order, multiplicities >= 1, multiplicity keys distinct",
     "truncator lists are non-empty lists of positive values (an EMPTY list passes the guards and produces ballots "
@@ -67,6 +73,29 @@ def opt(x):
     return [] if x is None else [x]
 
 
+CAT_WORDS = ["Top", "Middle", "Low", "Rest", "Extra", "More", "Spare", "Last"]
+
+
+def cat_names(n):
+    return [CAT_WORDS[i % len(CAT_WORDS)] + ("" if i < len(CAT_WORDS) else str(i)) for i in range(n)]
+
+
+def with_names(c, variant):
+    """the same case with a category_name argument: variant 0: None (explicitly), 1: one name per truncator
+    (the extra "rest" category has no name: too few whenever some order is not exhausted), 2: one name per
+    truncator + 1, 3: a single name, 4: three names too many, 5: the empty list"""
+    pl = list(c["payload"])
+    nt = 0
+    for k in (3, 4):
+        if pl[k]:
+            nt = len(pl[k][0])
+    if pl[5]:
+        nt = len(pl[5][0])
+    n = [None, nt, nt + 1, 1, nt + 4, 0][variant]
+    pl = pl[:6] + [[] if n is None else [[proto.text(w) for w in cat_names(n)]]]
+    return dict(c, payload=proto.norm(pl), tags=dict(c["tags"], names=variant))
+
+
 def fo_case(src, nic=None, st=None, rel=None, alts=None, num_alts=None, **tags):
     """src: list of (order, mult)."""
     if alts is None:
@@ -76,7 +105,7 @@ def fo_case(src, nic=None, st=None, rel=None, alts=None, num_alts=None, **tags):
         num_alts = len(alts)
     maxlen = max([len(o) for o, _ in src] + [0])
     rst = None if rel is None else rel_tables(rel, maxlen)
-    payload = [num_alts, names, [[o, m] for o, m in src], opt(nic), opt(st), opt(rst)]
+    payload = [num_alts, names, [[o, m] for o, m in src], opt(nic), opt(st), opt(rst), []]
     if rel is not None:
         tags["rel"] = list(rel)
     return case("c17.from_ordinal", payload, **tags)
@@ -155,6 +184,34 @@ def random_ballot(rng, alts):
 
 
 def generate(tier, seed):
+    out = _generate(tier, seed)
+    # category_name (documented, currently ignored) on ~20 % of the from_ordinal cases, all variants, all modes
+    res, k = [], 0
+    for c in out:
+        res.append(c)
+        if c["op"] == "c17.from_ordinal" and not c["tags"].get("guard"):
+            k += 1
+            if k % 5 == 0:
+                res[-1] = with_names(c, (k // 5) % 6)
+    # incomplete instances whose ballots have different lengths before padding, every naming variant, every mode
+    rng = random.Random(1000003 * seed + 1717)
+    base = [([[1], [2], [3], [4], [5], [6], [7]], 3), ([[7], [6], [5], [4], [3], [2], [1]], 2),
+            ([[1, 2], [3], [4, 5], [6]], 4), ([[2], [1], [3]], 2), ([[2], [1]], 5), ([[1], [2]], 1)]
+    fam = [dict(st=[2, 2]), dict(nic=[1, 1]), dict(rel=[0.25, 0.25]), dict(st=[3]), dict(nic=[2]), dict(rel=[0.5, 0.5])]
+    for kw in fam:
+        for v in range(6):
+            res.append(with_names(fo_case(base, alts=[1, 2, 3, 4, 5, 6, 7], exh=1, **kw), v))
+    for i in range(150 if tier == "quick" else 1500):
+        src, alts = random_source(rng)
+        src = src + [([[alts[0]]], 1)] if all(o != [[alts[0]]] for o, _ in src) else src
+        mode = i % 3
+        t = [rng.randint(1, 3) for _ in range(rng.randint(1, 3))]
+        kw = [dict(st=t), dict(nic=t), dict(rel=rng.choice(REL_LISTS_QUICK + REL_LISTS_MORE))][mode]
+        res.append(with_names(fo_case(src, alts=alts, rnd=1, **kw), 1 + i % 5))
+    return res
+
+
+def _generate(tier, seed):
     rng = random.Random(1000003 * seed + 17)
     quick = tier == "quick"
     out = []
@@ -280,7 +337,8 @@ def impl(c):
         return [[list(map(list, b)) for b in inst.preferences],
                 [[list(map(list, b)), m] for b, m in inst.multiplicity.items()],
                 inst.num_voters, inst.num_unique_preferences]
-    num_alts, names, src, nic, st, rst = pl
+    num_alts, names, src, nic, st, rst = pl[:6]
+    cn = pl[6] if len(pl) > 6 else []
     inst = ordinal_instance([(o, m) for o, m in src], alts=[a for a, _ in names])
     inst.alternatives_name = {a: proto.untext(t) for a, t in names}
     inst.num_alternatives = num_alts
@@ -291,6 +349,10 @@ def impl(c):
         kw["size_truncators"] = list(st[0])
     if rst:
         kw["relative_size_truncators"] = list(c["tags"]["rel"])
+    if cn:
+        kw["category_name"] = [proto.untext(t) for t in cn[0]]
+    elif c["tags"].get("names") == 0:
+        kw["category_name"] = None
 
     def run():
         ci = CategoricalInstance.from_ordinal(inst, **kw)
@@ -340,6 +402,8 @@ def _relative_fallback(c, ri, mres):
     if mres[1][1] != 1:
         return "an empty category is followed by a non-empty one (trailing_ok = false)"
     src = c["payload"][2]
+    if sorted({len(b) for b in ri[0]} | {len(b) for b, _ in ri[1]}) != [ri[4]]:
+        return "ballots are not padded to num_categories"
     if ri[2] != sum(m for _, m in src):
         return "num_voters %r, source has %r voters" % (ri[2], sum(m for _, m in src))
     if ri[3] != len(ri[0]):
@@ -353,14 +417,66 @@ def _relative_fallback(c, ri, mres):
     return None
 
 
+def _strip(b):
+    b = [list(x) for x in b]
+    while b and b[-1] == []:
+        b.pop()
+    return tup2(b)
+
+
+def _names_fallback(c, ri, mi):
+    """category_name is a list and the implementation's result differs from the model's (which, like the current
+    code, ignores the argument): accept a different COMMON padding width — same ballots and multiplicities as the
+    model once trailing empty categories are stripped, consistent counters. (The direct check that all ballots
+    have num_categories categories has already passed.)"""
+    si = sorted((_strip(b), m) for b, m in ri[1])
+    sm = sorted((_strip(b), m) for b, m in mi[1])
+    if si != sm or sorted(_strip(b) for b in ri[0]) != sorted(_strip(b) for b in mi[0]):
+        return "ballots differ from the model's by more than the padding width"
+    if len({_strip(b) for b in ri[0]}) != len(ri[0]):
+        return "a ballot is listed twice"
+    if ri[4] < mi[4]:
+        return "num_categories %r is smaller than the longest unpadded ballot (%r)" % (ri[4], mi[4])
+    if [ri[2], ri[3], ri[6]] != [mi[2], mi[3], mi[6]] or ri[5] != ri[4]:
+        return "counters: impl %r, model %r" % (ri[2:7], mi[2:7])
+    if sorted((a, tuple(t)) for a, t in ri[7]) != sorted((a, tuple(t)) for a, t in mi[7]):
+        return "alternatives_name not copied"
+    return None
+
+
+def _padding_direct(ri):
+    """directly on the implementation's result: all ballots padded to one common number of categories = num_categories"""
+    lens = sorted({len(b) for b in ri[0]} | {len(b) for b, _ in ri[1]})
+    if lens != [ri[4]] or ri[5] != ri[4]:
+        return {"kind": "mismatch", "theorem": "fo_padding",
+                "reason": "ballots are not padded to a common number of categories = num_categories: ballot lengths %r, "
+                          "num_categories %r, len(categories_name) %r; ballots %r" % (lens, ri[4], ri[5], ri[0])}
+    return None
+
+
 def judge(c, r, mres):
+    both_ok = (c["op"] == "c17.from_ordinal" and mres[0][0] == 0 and isinstance(r, list) and r[0] == 0)
+    if both_ok:
+        bad = _padding_direct(r[1])
+        if bad:
+            return bad
     bad = _judge(c, r, mres)
-    if bad and c["op"] == "c17.from_ordinal" and c["payload"][5] and mres[0][0] == 0 \
-            and isinstance(r, list) and r[0] == 0 and sum(map(bool, c["payload"][3:6])) == 1:
-        bad2 = _relative_fallback(c, r[1], mres)
-        if bad2 is None:
-            return None
-        bad = dict(bad, reason=bad["reason"] + " | and: " + bad2, theorem="fo_output_valid / conv_check_correct")
+    if bad and both_ok and sum(map(bool, c["payload"][3:6])) == 1:
+        pl = c["payload"]
+        why = []
+        if len(pl) > 6 and pl[6]:
+            b2 = _names_fallback(c, r[1], mres[0][1])
+            if b2 is None:
+                return None
+            why.append(b2)
+        if pl[5]:
+            b2 = _relative_fallback(c, r[1], mres)
+            if b2 is None:
+                return None
+            why.append(b2)
+            bad = dict(bad, theorem="fo_output_valid / conv_check_correct")
+        if why:
+            bad = dict(bad, reason=bad["reason"] + " | and: " + "; ".join(why))
     return bad
 
 
@@ -459,6 +575,13 @@ def stats(c, r, mres):
         lab.append("from_ordinal some ballot padded")
     pl = c["payload"]
     src = pl[2]
+    if "names" in c["tags"]:
+        n = len(pl[6][0]) if len(pl) > 6 and pl[6] else None
+        k = m[1][4]
+        rel = "None" if n is None else ("fewer names than" if n < k else ("as many names as" if n == k else "more names than"))
+        unequal = len({len([x for x in b if x]) for b in m[1][8]}) > 1 and any(b and b[-1] == [] for b in m[1][0])
+        lab.append("from_ordinal category_name: %s num_categories%s" % (rel, ", some ballot padded" if unequal else ""))
+        lab.append("from_ordinal category_name given (%s)" % _mode(c))
     if _mode(c) == "sizes" and any(_overshoot(o, pl[4][0]) for o, _ in src):
         lab.append("from_ordinal sizes: a class overshoots t_j, another truncator follows")
     if _mode(c) == "relative" and any(_overshoot(o, [tab[len(o)] for tab in pl[5][0]]) for o, _ in src):
@@ -484,7 +607,8 @@ def describe(c):
             "num_indif_classes": pl[3][0] if pl[3] else None,
             "size_truncators": pl[4][0] if pl[4] else None,
             "relative_size_truncators": c["tags"].get("rel") if pl[5] else None,
-            "relative tables n -> int(ceil(n*t))": pl[5][0] if pl[5] else None}
+            "relative tables n -> int(ceil(n*t))": pl[5][0] if pl[5] else None,
+            "category_name": ([proto.untext(t) for t in pl[6][0]] if len(pl) > 6 and pl[6] else None)}
 
 
 def shrink(c):
@@ -496,13 +620,14 @@ def shrink(c):
         for i in range(len(mult)):
             yield dict(c, payload=[reset, bs, mult[:i] + mult[i + 1:]])
         return
-    num_alts, names, src, nic, st, rst = pl
+    num_alts, names, src, nic, st, rst = pl[:6]
+    tail = pl[6:]
     if len(src) > 1:
         for i in range(len(src)):
-            yield dict(c, payload=[num_alts, names, src[:i] + src[i + 1:], nic, st, rst])
+            yield dict(c, payload=[num_alts, names, src[:i] + src[i + 1:], nic, st, rst] + tail)
     for i, (o, m) in enumerate(src):
         if m > 1:
-            yield dict(c, payload=[num_alts, names, src[:i] + [[o, 1]] + src[i + 1:], nic, st, rst])
+            yield dict(c, payload=[num_alts, names, src[:i] + [[o, 1]] + src[i + 1:], nic, st, rst] + tail)
     ranked = sorted({a for o, _ in src for cl in o for a in cl})
     for a in ranked:
         new = []
@@ -511,7 +636,7 @@ def shrink(c):
             o2 = [cl for cl in o2 if cl]
             new.append([o2, m])
         if all(o for o, _ in new) and len({repr(o) for o, _ in new}) == len(new):
-            yield dict(c, payload=[num_alts, names, new, nic, st, rst])
+            yield dict(c, payload=[num_alts, names, new, nic, st, rst] + tail)
     for which, p in ((3, nic), (4, st)):
         if p and len(p[0]) > 1:
             for i in range(len(p[0])):
